@@ -238,6 +238,10 @@ func runC15(c *fw.Case) {
 		m = base("payload-link-never-published")
 		m.storeLink = false
 		recs = append(recs, m)
+		m = base("link-never-published-signed-as-empty-link")
+		m.storeLink = false
+		m.sig = signer.sign(c15Payload(m.addr, m.refID, ""))
+		recs = append(recs, m)
 		m = base("signature-never-stored")
 		m.storeSig = false
 		recs = append(recs, m)
